@@ -242,7 +242,8 @@ func runC09Race(c *Ctx, cfg c09Race) (sig, msg string) {
 	}
 	r := rng.New(cfg.Seed)
 	var wg sync.WaitGroup
-	var stop int32
+	var stop, closing int32
+	var iterMu sync.RWMutex
 	start := make(chan struct{})
 	for i := 0; i < cfg.Clients; i++ {
 		wg.Add(1)
@@ -279,11 +280,16 @@ func runC09Race(c *Ctx, cfg c09Race) (sig, msg string) {
 						err = nil
 					}
 				default:
-					it := db.NewIterator(nil, nil)
-					for j := 0; j < 10 && it.Next(); j++ {
+					// Close's documented precondition: all iterators are released before Close is called
+					iterMu.RLock()
+					if atomic.LoadInt32(&closing) == 0 {
+						it := db.NewIterator(nil, nil)
+						for j := 0; j < 10 && it.Next(); j++ {
+						}
+						err = it.Error()
+						it.Release()
 					}
-					err = it.Error()
-					it.Release()
+					iterMu.RUnlock()
 				}
 				if err == leveldb.ErrClosed {
 					return
@@ -293,6 +299,9 @@ func runC09Race(c *Ctx, cfg c09Race) (sig, msg string) {
 	}
 	close(start)
 	time.Sleep(time.Duration(cfg.CloseAtUs) * time.Microsecond)
+	atomic.StoreInt32(&closing, 1)
+	iterMu.Lock() // wait for the iterators in use; none is created afterwards
+	iterMu.Unlock()
 	if _, ok := watch(30*time.Second, db.Close); !ok {
 		atomic.StoreInt32(&stop, 1)
 		return "close:hang:racing-clients", fmt.Sprintf("Close racing %d clients did not return within 30 s\n%s", cfg.Clients, dumpBlocked())
